@@ -10,7 +10,7 @@ import subprocess
 import sys
 import time
 
-from pbt.runner import Violation, check, HarnessError, VERIF_DIR, REPO, derive_seed
+from pbt.runner import Violation, check, HarnessError, VERIF_DIR, REPO, derive_seed, case_hash
 
 PROPERTY = "C19"
 LEVEL = "exploration"
@@ -336,6 +336,54 @@ def entry_points():
 GENERIC = ["a", "1", "-", ".", ":", "!", "/", "@", " ", "A", "_", "\n"]
 
 
+# ---- document text used as a pattern -----------------------------------------------------------------------------------------
+def taint_inventory():
+    env = dict(os.environ, PYTHONPATH=VERIF_DIR + os.pathsep + os.environ.get("PYTHONPATH", ""), VERIF_REPO=REPO, PYTHONHASHSEED="0")
+    proc = subprocess.run([sys.executable, "-m", "pbt.c19_inventory", "--taint"], capture_output=True, text=True, env=env, cwd=VERIF_DIR, timeout=900)
+    if proc.returncode != 0:
+        raise HarnessError("taint scan failed:\n%s" % proc.stderr[-2000:])
+    return json.loads(proc.stdout)
+
+
+ATTACK_PATTERNS = ["(x+)+", "(x+)+$", "(x|x)+", "x(x+)+y"]
+ATTACK_SUBJECTS = ["x" * 28 + "!", "-" + "x" * 28 + "!", "a-" + "x" * 28 + "!", "x" * 28]
+
+
+def taint_case(case):
+    """end-to-end confirmation: the tainted position gets a pattern with nested quantifiers, every other text position in
+    turn gets a short subject that nearly matches it; loads() must still finish within the R1 limit"""
+    from pbt import c19_docs
+    doc = c19_docs.base_docs()[case["doc"]]
+    leaf = tuple(case["leaf"])
+    others = [l for l in c19_docs.leaves(doc) if l != leaf]
+    if "subject_leaf" in case:
+        others = [tuple(case["subject_leaf"])]
+    tried = 0
+    for pat in ([case["attack_pattern"]] if "attack_pattern" in case else ATTACK_PATTERNS):
+        for other in others:
+            for subj in ([case["attack_subject"]] if "attack_subject" in case else ATTACK_SUBJECTS):
+                d2 = {"kind": doc["kind"], "cls": doc.get("cls"), "doc": None, "ini": None}
+                text, cls = c19_docs.substitute(doc, leaf, lambda old: pat)
+                # second substitution on the already substituted document
+                import copy as _copy
+                tmp = _copy.deepcopy(doc)
+                if doc["kind"] == "json":
+                    tmp["doc"] = json.loads(text)
+                else:
+                    from pbt import ti as tim
+                    tmp["ini"] = tim.read_ini(text)
+                try:
+                    text2, cls = c19_docs.substitute(tmp, other, lambda old: subj)
+                except Exception:  # noqa  (the first substitution renamed what the second one addresses)
+                    continue
+                tried += 1
+                t = measure(lambda: c19_docs.load(text2, cls), 2.0)
+                check(t is not None and t <= R1_LIMIT, "document-text-used-as-pattern",
+                      lambda: "%s: text at %r reaches re as a pattern (%s); with %r there and %r at %r a %d-character document takes %s CPU seconds to load" % (
+                          case["doc"], leaf, case.get("pattern"), pat, subj, other, len(text2), "more than 2.0" if t is None else "%.2f" % t))
+    return {"nontrivial": True, "labels": ["tainted-position"], "tried": tried}
+
+
 def chosen(alphabet, max_affix, max_pump, count, seed_parts):
     """count=None: every family (deterministically shuffled); otherwise a seeded sample drawn without materialising the space"""
     rnd = random.Random(derive_seed(*seed_parts))
@@ -408,6 +456,36 @@ def run(ctx):
             except Violation as v:
                 ctx._violation("patterns", fcase, v)
     sub.wall += time.time() - t0
+
+    # document text that reaches re as a pattern (not escaped): confirm end to end
+    if ctx.wanted("input-as-pattern"):
+        sub = ctx.sub("input-as-pattern")
+        t0 = time.time()
+        tainted = taint_inventory() if ctx.shard == 0 else []
+        from pbt import c19_docs
+        if ctx.shard == 0:
+            docs = c19_docs.base_docs()
+            n = sum(len(c19_docs.leaves(d)) for d in docs.values())
+            sub.evaluations += 2 * n
+            sub.notes.append("%d text positions in %d documents probed with a canary; %d reached re as part of a pattern" % (n, len(docs), len(tainted)))
+            for name in sorted(docs):
+                for leaf in c19_docs.leaves(docs[name])[:400]:
+                    sub.nontrivial.add(case_hash([name, list(leaf)]))
+            sub.labels["nontrivial"] += n
+            sub.samples.append({"document": "treeinfo-0.0", "positions": [list(l) for l in c19_docs.leaves(docs["treeinfo-0.0"])[:6]]})
+        seen_positions = set()
+        for item in tainted:
+            key = (item["doc"], tuple(item["leaf"]))
+            if key in seen_positions:
+                continue
+            seen_positions.add(key)
+            case = {"doc": item["doc"], "leaf": item["leaf"], "pattern": item["pattern"], "sites": item["sites"]}
+            try:
+                taint_case(case)
+            except Violation as v:
+                ctx._violation("input-as-pattern", case, v)
+                break
+        sub.wall += time.time() - t0
 
     # entry points
     sub = ctx.sub("entry-points")
@@ -490,5 +568,5 @@ def entry_case(case, eps=None):
     return {"nontrivial": rejected, "labels": ["rejected" if rejected else "accepted"], "t": t}
 
 
-REPLAY = {"patterns": pattern_case, "entry-points": entry_case}
+REPLAY = {"patterns": pattern_case, "entry-points": entry_case, "input-as-pattern": taint_case}
 QUICK_JOBS = 8
